@@ -445,11 +445,25 @@ func ParseRevive(text []uint16, reviver Value) (v Value, t *Throw) {
 	return v, t
 }
 
+// MaxWalkDepth is the recursion depth at which Walk gives up with a RangeError.
+var MaxWalkDepth = 5000
+
+var walkDepth int
+
 // Walk is the abstract operation Walk(holder, name) of 15.12.2. With
 // aliasKeys=true the key list of an object is NOT a snapshot but the live key
 // slice of an AliasDelete object — the alternative model of an implementation
 // that iterates its property-order slice while deleting from it.
 func Walk(reviver Value, holder *Obj, name S16, aliasKeys bool) Value {
+	// By the letter of 15.12.2 Walk does not terminate on a value that a reviver
+	// has made cyclic; every implementation runs out of stack, which ES5 engines
+	// report as a RangeError. The model does the same at a depth no acyclic case
+	// of the check comes near.
+	walkDepth++
+	defer func() { walkDepth-- }()
+	if walkDepth > MaxWalkDepth {
+		throw("RangeError", "Walk recursion deeper than any finite value (cyclic structure made by the reviver)")
+	}
 	val := holder.Get(name)
 	if val.Kind == Object {
 		o := val.O
